@@ -920,6 +920,10 @@ class EditableParentImpl(BaseParentImpl):
 
         from modelx.io.pandasio import PandasData
         self._check_ioref_name(name)
+        # A value referenced in the model can have only one spec.
+        refmgr = self.model.refmgr
+        if id(data) in refmgr._valid_to_refs and refmgr.has_spec(data):
+            raise ValueError("data already has %r" % refmgr.get_spec(data))
         spec = self.system.iomanager.new_spec(
             PandasData,
             io_group=self.model.interface,
